@@ -18,7 +18,8 @@ TIERS = {"quick": {"n": 1400}, "thorough": {"n": 16000}}
 RULE = ("class under test OrderedMultiDict (3/4) or its subclass urlutils.QueryParamDict (1/4); histories of 1-40 (thorough: 1-70) public operations over two live OrderedMultiDicts, 2-5 key tokens and "
         "3-6 value tokens, arguments rotated over list/tuple/generator/iterator/list-of-lists, dict/OrderedDict/"
         "mappingproxy/keys()+__getitem__ object, the other OMD, the object itself, kwargs; returned and passed "
-        "containers are mutated after the call; non-trivial = some key reached >= 2 pairs and a later operation "
+        "containers are mutated after the call; ~5 % malformed calls (iterable ending in a non-pair / unhashable key, "
+        "non-iterable addlist argument, unhashable key to 14 methods); non-trivial = some key reached >= 2 pairs and a later operation "
         "removed or replaced pairs; distinct = distinct canonical history hash")
 ASSUMPTIONS = ["keys/values are hashable with lawful __eq__/__hash__ (tokens mapped to pairwise unequal Python objects)",
                "CPython dict preserves insertion order; sorted() is stable (Spec.py_sorted)",
@@ -67,6 +68,9 @@ READS = ["items", "keys", "values", "len", "iter", "reversed", "get", "getlist",
 KEYFNS = ["KfKey", "KfVal", "KfLex", "KfValPar", "KfConst"]
 PAIR_KINDS = ["list", "tuple", "gen", "iter", "lol"]
 MAP_KINDS = ["dict", "odict", "proxy", "keysobj"]
+BAD = ["updatebad", "updatebad", "extendbad", "extendbad", "addlistbad", "badkey"]
+BADKINDS = ["BkInt", "BkLong", "BkShort", "BkUnhashable"]
+N_BADKEY = 14
 REMOVERS = {"setitem", "delitem", "update", "ior", "pop", "popall", "poplast", "popitem", "clear"}
 
 
@@ -121,6 +125,10 @@ def _shadow(regs, r, op):
             l = [p for p in l if p[0] != l[-1][0]]
     elif n == "clear":
         l = []
+    elif n == "updatebad":
+        l = _replace_with(l, op["l"])
+    elif n == "extendbad":
+        l = l + [list(p) for p in op["l"]]
     elif n == "new":
         a = op["a"]
         base = [] if a is None else (a[1] if a[0] in ("pairs", "map") else (o if a[0] == "other" else l))
@@ -194,8 +202,10 @@ def _gen_case(rng, tier):
                 n = rng.choice(MUTATORS + ["add", "add", "addlist", "setitem", "update", "update_extend"])
         elif c < w[0] + w[1]:
             n = rng.choice(MAKERS)
+        elif c < w[0] + w[1] + 0.05:
+            n = rng.choice(BAD)
         else:
-            n = rng.choice(READS + ["eq", "eq", "items", "get", "getitem"])
+            n = rng.choice(READS + ["eq", "eq", "items", "get", "getitem", "or"])
         op = {"r": r, "op": n}
         if n in ("add", "setitem"):
             op.update(k=K(), v=V())
@@ -223,6 +233,14 @@ def _gen_case(rng, tier):
             op.update(multi=rng.random() < 0.5, how=rng.randrange(3))
         elif n in ("sorted", "sortedvalues"):
             op.update(f=rng.choice(KEYFNS), rev=rng.random() < 0.4)
+        elif n == "or":
+            op.update(m=mapping(), refl=rng.random() < 0.5)
+        elif n in ("updatebad", "extendbad"):
+            op.update(l=pairs(4), b=rng.choice(BADKINDS), it=rng.choice(["list", "tuple", "gen", "iter"]))
+        elif n == "addlistbad":
+            op.update(k=K())
+        elif n == "badkey":
+            op.update(n=rng.randrange(N_BADKEY), v=V(), u=rng.randrange(3))
         elif n == "eq":
             ne = rng.random() < 0.3
             cur = regs[r]
@@ -274,7 +292,7 @@ def _gen_case(rng, tier):
                 rng.shuffle(items)
                 op.update(w="map", ne=ne, m=[list(p) for p in items], kind=rng.choice(MAP_KINDS[:3]))
             op["refl"] = rng.random() < 0.3 and (op["w"] in ("other", "self", "pairs") or op.get("kind") == "dict")
-        is_read = n in READS
+        is_read = n in READS or n == "or"
         op["snap"] = (not is_read) or rng.random() < 0.12
         op["mut"] = rng.random() < 0.7       # mutate returned / passed containers after the call
         if not is_read:
@@ -539,6 +557,55 @@ def _do(OMD, regs, op):
         if type(x) is not tuple or x[0] != "ok" or type(x[1]) is not list:
             return UNREP, spoil
         return _c_pairs(x[1]), spoil
+    if n == "or":
+        m = _map_arg(op["m"], "dict")
+        x = (m | d) if op["refl"] else (d | m)
+        if type(x) is not dict:
+            return UNREP, spoil
+        spoil.append(x)
+        return _c_pairs(list(x.items())), spoil
+    if n in ("updatebad", "extendbad"):
+        ps = [(obj(k), obj(v)) for k, v in op["l"]]
+        bad = {"BkInt": 5, "BkLong": (obj(0), obj(0), obj(0)), "BkShort": (obj(0),), "BkUnhashable": ([], obj(0))}[op["b"]]
+        ps.append(bad)
+        x = {"list": ps, "tuple": tuple(ps), "gen": (q for q in ps), "iter": iter(ps)}[op["it"]]
+        return val(d.update(x) if n == "updatebad" else d.update_extend(x)), spoil
+    if n == "addlistbad":
+        return val(d.addlist(obj(op["k"]), 5)), spoil
+    if n == "badkey":
+        u = [[], {}, set()][op["u"]]
+        v = obj(op["v"])
+        i = op["n"]
+        if i == 0:
+            return val(d.add(u, v)), spoil
+        if i == 1:
+            d[u] = v
+            return val(None), spoil
+        if i == 2:
+            del d[u]
+            return val(None), spoil
+        if i == 3:
+            return val(d.pop(u)), spoil
+        if i == 4:
+            return val(d.pop(u, v)), spoil
+        if i == 5:
+            return val(d.popall(u, v)), spoil
+        if i == 6:
+            return val(d.poplast(u)), spoil
+        if i == 7:
+            return val(d.poplast(u, v)), spoil
+        if i == 8:
+            return val(d.get(u, v)), spoil
+        if i == 9:
+            d.getlist(u)
+            return val(None), spoil
+        if i == 10:
+            return val(d[u]), spoil
+        if i == 11:
+            return ["bool", u in d], spoil
+        if i == 12:
+            return val(d.setdefault(u, v)), spoil
+        return val(d.addlist(u, [v])), spoil
     if n == "eq":
         w = op["w"]
         if w == "other":
@@ -575,7 +642,8 @@ def run_impl(case):
             except Unrepresentable:
                 res = UNREP
             except (KeyError, IndexError, TypeError, ValueError, RuntimeError, AttributeError, StopIteration) as e:
-                res = ["raise", EXN[[c.__name__ for c in type(e).__mro__ if c.__name__ in EXN][0]]]
+                res = ["raised" if op["op"] in BAD else "raise",
+                       EXN[[c.__name__ for c in type(e).__mro__ if c.__name__ in EXN][0]]]
         except AssertionError:
             raise
         if op.get("mut"):
@@ -675,6 +743,16 @@ def _op(op):
         return "Sorted %s %s" % (op["f"], _b(op["rev"]))
     if n == "sortedvalues":
         return "SortedValues %s %s" % (op["f"], _b(op["rev"]))
+    if n == "or":
+        return "%s %s" % ("ROrMap" if op["refl"] else "OrMap", _ps(op["m"]))
+    if n == "updatebad":
+        return "UpdateBad %s %s" % (_ps(op["l"]), op["b"])
+    if n == "extendbad":
+        return "UpdateExtendBad %s %s" % (_ps(op["l"]), op["b"])
+    if n == "addlistbad":
+        return "AddListBad %s" % _n(op["k"])
+    if n == "badkey":
+        return "BadKey %s" % _n(op["n"])
     if n == "eq":
         w, ne = op["w"], _b(op["ne"])
         if w == "other":
@@ -693,6 +771,8 @@ def _res(r):
     t = r[0]
     if t == "raise":
         return "(Raise %s)" % r[1]
+    if t == "raised":
+        return "(Ok (ORaised %s))" % r[1]
     if t == "val":
         return "(Ok (OVal %s))" % _n(r[1])
     if t == "bool":
@@ -747,7 +827,7 @@ def corrupt(case, obs):
 def nontrivial(case, obs):
     multi = False
     for op, o in zip(case["ops"], obs):
-        if multi and op["op"] in REMOVERS and o["res"][0] != "raise":
+        if multi and op["op"] in REMOVERS and o["res"][0] not in ("raise", "raised"):
             return True
         s = o["snap"]
         if s and s != "raise":
@@ -770,7 +850,7 @@ def distribution(d, case, obs):
         if n == "copy":
             n = "copy:" + op["c"]
         ops[n] = ops.get(n, 0) + 1
-        if o["res"][0] == "raise":
+        if o["res"][0] in ("raise", "raised"):
             errs[op["op"] + ":" + o["res"][1]] = errs.get(op["op"] + ":" + o["res"][1], 0) + 1
         a = op.get("a")
         if a:
